@@ -150,6 +150,25 @@ def run(tier, seed):
     check_static(st)
     BP = runner.M['builtin_policies'].BUILTIN_POLICIES
     par.pmap(work_dynamic, sorted(BP), stats=st, chunk=3)
+    vcases = []
+    for pname in H.pick([n for n in sorted(BP) if BP[n]['server_policy']], seed, 6 if tier == 'quick' else 24):
+        p = BP[pname]
+
+        def mk(p=p):
+            keys = list(p['host_keys'] or [])
+            sizes = p.get('hostkey_sizes') or {}
+            hk = {}
+            for k in keys:
+                sz = (sizes.get(k) or {}).get('hostkey_size')
+                if 'rsa' in k and '-cert-' not in k:
+                    hk[k] = wire.rsa_blob_tree(sz or 4096)
+                elif k == 'ssh-ed25519':
+                    hk[k] = wire.ed25519_blob_tree()
+            dh = p.get('dh_modulus_sizes') or {}
+            gex = P.GexPolicy(sorted(set(dh.values()))[:1], P.STRICT) if dh else None
+            return P.Server(host_keys=hk, gex=gex, kex=p['kex'], key=keys, enc=p['ciphers'], mac=p['macs'], banner=b'SSH-2.0-OpenSSH_9.6')
+        vcases.append({'label': pname, 'opts': ['-n'] + (['-j'] if len(vcases) % 2 else []), 'make': mk})
+    validated = H.validate_traces(vcases, st)
     return evidence.finish(
         PID, tier, seed, st, t0,
         rule='every entry of the SSH-2 rating database (shape, version strings, notes; broken-primitive tokens %s must carry a failure); every name in '
@@ -157,7 +176,7 @@ def run(tier, seed):
              '(known to the DB, not rated fail); a peer synthesised from each of the %d built-in policies audited in text and JSON' % (
                  [b[0] for b in BROKEN], len(BP)),
         assumptions=['the tables are finite: this is an exhaustive check of the current tree'],
-        exhaustive=True)
+        exhaustive=True, traces_validated=validated)
 
 
 def replay(path):
